@@ -48,6 +48,14 @@ func c05Atoms() []query.Q {
 		query.RcOnlyPublic, query.RcNoForks, query.RcOnlyArchived | query.RcOnlyPrivate,
 		&query.Meta{Field: "team", Value: re("red")}, &query.Meta{Field: "team", Value: re(".")}, &query.Meta{Field: "nope", Value: re("")},
 		&query.Symbol{Expr: &query.Substring{Pattern: "abc", Content: true}},
+		// look-alike partners of atoms above: different filters whose printed form is the same
+		// (String() abbreviates id sets to their size and omits some flags); appended at the end, the
+		// index-based selections below stay as they are
+		query.NewRepoIDs(1, 2), query.NewRepoIDs(2, 3), query.NewRepoIDs(2, 3, 9),
+		query.NewSingleBranchesRepos("dev", 1, 2), query.NewSingleBranchesRepos("dev", 2, 3),
+		query.NewRepoSet("alpha/one", "x1", "x2", "x3", "x4", "x5"), query.NewRepoSet("beta/two", "x1", "x2", "x3", "x4", "x5"),
+		query.NewFileNameSet("da/f0.go", "y1", "y2", "y3", "y4", "y5"), query.NewFileNameSet("db/f1.py", "y1", "y2", "y3", "y4", "y5"),
+		func() query.Q { r, _ := gen.Regexp("a.c", true, true, false); return r }(),
 	}
 }
 
@@ -221,5 +229,5 @@ func TestVerifC05(t *testing.T) {
 	})
 	r.Assume("meaning = ref.EvalCorpus on every live document of the shard (type:repo = some live document of the repository satisfies the child)")
 	r.Assume("case-scope handling is internal to the parser and is covered by C06 through query.Parse")
-	r.Finish("case = (query tree, rewrite, shard): all trees to depth 3 over 42 atoms incl. every degenerate form (quick: third level over 14 atoms) × {Simplify, ExpandFileContent, their composition, per-shard simplify on 6 shards}; non-trivial = original is true on some and false on other documents")
+	r.Finish("case = (query tree, rewrite, shard): all trees to depth 3 over 52 atoms incl. every degenerate form and look-alike pairs (same printed form, different meaning) (quick: third level over 14 atoms) × {Simplify, ExpandFileContent, their composition, per-shard simplify on 6 shards}; non-trivial = original is true on some and false on other documents")
 }
